@@ -4,7 +4,7 @@
 (* asmsub.c ProgCounter/EProgCounter): per-segment load counters, PHASE    *)
 (* offsets and their stacks, SEGMENT switching, SAVE/RESTORE, ALIGN,       *)
 (* STRUCT/UNION bodies.  Pure operators on a record                        *)
-(*   b = [act, pc, ph, phStk, used, saveStk, stStk, stSaveSeg]             *)
+(*   b = [act, cpu, pc, ph, phStk, used, saveStk, stStk, stSaveSeg]        *)
 (* so that the exhaustive wrapper, the generator and the trace             *)
 (* specification share them.  Addresses are in units of the segment's      *)
 (* granularity, exactly like PCs[].                                        *)
@@ -22,7 +22,7 @@ Load(b) == b.pc[b.act]
 Exec(b) == b.pc[b.act] + b.ph[b.act]
 
 InitB(seg0) ==
-  [act |-> seg0, pc |-> [s \in AllSegs |-> 0], ph |-> [s \in AllSegs |-> 0],
+  [act |-> seg0, cpu |-> 0, pc |-> [s \in AllSegs |-> 0], ph |-> [s \in AllSegs |-> 0],
    phStk |-> [s \in AllSegs |-> <<>>], used |-> [s \in AllSegs |-> s = seg0],
    saveStk |-> <<>>, stStk |-> <<>>, stSaveSeg |-> seg0]
 
@@ -73,10 +73,15 @@ Dephase(b) ==
   THEN [b EXCEPT !.ph[b.act] = b.phStk[b.act][1], !.phStk[b.act] = Tail(@)]
   ELSE [b EXCEPT !.ph[b.act] = 0]
 
-\* SAVE / RESTORE: (CPU,) segment (and listing state, not modelled here) in LIFO order
-Save(b) == [b EXCEPT !.saveStk = <<[seg |-> b.act]>> \o @]
+\* CPU c (asmallg.c CodeCPU): select the target and enter its CODE segment (SetNSeg(SegCode)); the counters stay
+Cpu(b, c, code, init) == Segment([b EXCEPT !.cpu = c], code, init)
+
+\* SAVE / RESTORE: CPU and segment (and listing state, not modelled here) in LIFO order.  RESTORE reinstates the
+\* saved segment and then the saved CPU through SetCPUByType -- which, unlike the CPU statement, does NOT enter
+\* the CODE segment.
+Save(b) == [b EXCEPT !.saveStk = <<[seg |-> b.act, cpu |-> b.cpu]>> \o @]
 CanRestore(b) == b.saveStk # <<>>
-Restore(b) == [b EXCEPT !.act = b.saveStk[1].seg, !.saveStk = Tail(@)]
+Restore(b) == [b EXCEPT !.act = b.saveStk[1].seg, !.cpu = b.saveStk[1].cpu, !.saveStk = Tail(@)]
 
 \* STRUCT / UNION: the body lives in StructSeg starting at offset 0; nothing is emitted
 BeginStruct(b, isUnion) ==
